@@ -93,18 +93,19 @@ FileClauses(s) == FileClausesAt(s, {}, FALSE)
 FileWritten(u) == Ev.state.ue[u].known /\ Ev.state.ue[u].file.exists
 
 (* C06 per answered usage entry *)
-RECURSIVE GAClauses(_, _, _, _, _)
-GAClauses(p, u, usage, mui, i) ==
+RECURSIVE GAClauses(_, _, _, _, _, _)
+GAClauses(p, u, usage, mui, trig, i) ==
   IF i > Len(usage) THEN {}
   ELSE LET us == usage[i]
            k  == Key(u, us.rg)
            js == {j \in 1..Len(mui) : mui[j].rg = us.rg}
-           applicable == us.req >= 0 /\ HasOnline(us) /\ k \in DOMAIN p.acct /\ p.acct[k].cost > 0
-           bad == applicable /\ \E j \in js : ~GrantAffordable(p, u, us, mui[j])
-       IN (IF bad THEN {V("C06", "grant_affordable",
-                          [rg |-> us.rg, mode |-> IF u \in DOMAIN p.ue /\ us.rg \in DOMAIN p.ue[u].rg
-                                                    THEN p.ue[u].rg[us.rg].rtype ELSE "reserve"])} ELSE {})
-          \cup GAClauses(p, u, usage, mui, i + 1)
+           applicable == us.req >= 0 /\ HasOnline(us) /\ k \in DOMAIN p.acct /\ p.acct[k].cost > 0 /\ k \in DOMAIN h.credited
+           over == applicable /\ \E j \in js : ~GrantWithin(p, h, u, us, mui[j])
+           nofui == applicable /\ \E j \in js : ~GrantFui(p, h, u, us, mui[j])
+           mode == IF DebitMode(p, u, us.rg, trig) THEN "debit" ELSE "reserve"
+       IN (IF over THEN {V("C06", "grant_affordable", [rg |-> us.rg, mode |-> mode, which |-> "granted_exceeds"])} ELSE {})
+          \cup (IF nofui THEN {V("C06", "grant_affordable", [rg |-> us.rg, mode |-> mode, which |-> "fui_missing"])} ELSE {})
+          \cup GAClauses(p, u, usage, mui, trig, i + 1)
 
 (* C02 opening time: BCD YYMMDDhhmmss, sign, hh, mm of the zone in force *)
 Bcd(n) == (n \div 10) * 16 + (n % 10)
@@ -179,7 +180,7 @@ StepUpdate ==
          contract == ok /\ Ev.result.seq = Ev.seq /\ Ev.result.hasTs
      IN /\ pre' = obs /\ h' = h2
         /\ viol' = viol \cup StateClauses(obs, h2) \cup FileClausesAt(Ev.state, {x : x \in {Ids(a.usage)[i] : i \in 1..Len(Ids(a.usage))}}, FALSE)
-              \cup (IF ok THEN GAClauses(pre, u, a.usage, resp.mui, 1) ELSE {})
+              \cup (IF ok THEN GAClauses(pre, u, a.usage, resp.mui, a.trig, 1) ELSE {})
               \cup (IF known /\ ~contract THEN {V("C12", "update_contract", [status |-> resp.status])} ELSE {})
               \cup (IF ~known /\ ~(resp.status >= 400 /\ resp.status <= 499)
                       THEN {V("C12", "unknown_is_4xx", [status |-> resp.status, stale |-> a.ref \in DOMAIN h.sess])} ELSE {})
